@@ -74,6 +74,50 @@ def _mk_case(stream, X, y, kind='tree', depth=None, seed=0, est=0, mut=None, par
     return c
 
 
+# float32-exact values around a threshold at 1e-3: in-bag 0 and B_SUB, threshold THR_SUB (their float32 midpoint), and an
+# object 3 float32-ulps (3.5e-10 < eps) above the threshold
+B_SUB, THR_SUB, X_SUB = 0.0020000000949949026, 0.0010000000474974513, 0.0010000003967434168
+
+
+def _eps_scale_cases():
+    """Known finding D23 (the converter's eps = 1e-9 is ABSOLUTE): deterministic tables on which an object of the context
+    lies on / within eps above a threshold.  (a) |threshold| >= 2**23, where thr + 1e-9 == thr in float64, so an object
+    equal to the threshold matches BOTH child premises; (b) an object in (thr, thr + eps) matches NEITHER premise.
+    Such objects arise from sklearn's float32 cast or as out-of-bag objects of a bootstrapped forest member.
+    Outside the Lean model's `wellFormed` hypothesis: judged by the property alone, oracle = tree.predict."""
+    big = [[16777216.0], [16777220.0], [16777218.0]]
+    sub = [[0.0], [B_SUB], [X_SUB]]
+    yield _mk_case('eps-scale', [[16777217.0], [16777218.0]], [0.0, 1.0])                          # D23a
+    yield _mk_case('eps-scale', sub, [0.0, 1.0, 1.0], kind='forest', seed=0, est=1)                # D23b
+    for sd in (0, 1):
+        yield _mk_case('eps-scale', big, [0.0, 4.0, 4.0], kind='forest', seed=sd, est=1)
+        yield _mk_case('eps-scale', big + [[0.0]], [0.0, 4.0, 4.0, -8.0], kind='forest', seed=sd, est=1)
+        yield _mk_case('eps-scale', sub + [[1.0]], [0.0, 1.0, 1.0, 5.0], kind='forest', seed=sd, est=1)
+    yield _mk_case('eps-scale', sub, [0.0, 1.0, 1.0], kind='forest', seed=1, est=1)
+    yield _mk_case('eps-scale', [[33554433.0], [33554436.0]], [0.0, 1.0])
+
+
+def _abs_eps_cause(c, io):
+    """Does some object of the context meet, on its own root-to-leaf path, a threshold for which the two child premises
+    `x <= thr` and `thr + eps <= x` (float arithmetic, as the converter evaluates them) are not complementary?"""
+    a = io.get('arrays')
+    if not a or 'eps' not in io:
+        return False
+    eps = io['eps']
+    for x in c['X']:
+        i = 0
+        while 0 <= i < len(a['left']) and a['left'][i] != -1:
+            f, thr = a['feature'][i], a['threshold'][i]
+            if not 0 <= f < len(x):
+                break
+            v = float(x[f])
+            goes_left, in_right = v <= thr, thr + eps <= v
+            if goes_left == in_right:
+                return True
+            i = a['left'][i] if goes_left else a['right'][i]
+    return False
+
+
 def _growth_params(rng):
     """One non-default way of growing the tree (each is a keyword set of DecisionTreeRegressor)."""
     return rng.choice([
@@ -146,6 +190,7 @@ def gen(tier, seed, boost=False):
         for xs in itertools.product((0, 1, 2), repeat=4):
             for ys in itertools.product((0, 1, 3), repeat=4):
                 yield _mk_case('exhaustive-4rows', [[float(v)] for v in xs], [float(v) for v in ys])
+    yield from _eps_scale_cases()
     yield from _growth_cases(random.Random(seed * 7919 + 20), tier, boost)
     # seeded random larger cases
     nctx = 150 if tier == 'quick' else 1500
@@ -568,6 +613,8 @@ def judge(c, io, rep):
     tp = io['tree_pred']
     if not closev(io['pred'], tp):
         return bad('property', f'DL.predict(K) = {io["pred"]} but tree.predict(X) = {tp}')
+    if c['stream'] == 'eps-scale':
+        return dict(ok=True)        # outside `wellFormed`: only the property itself is judged here
     for s in io['scaled']:
         if 'err' in s:
             return bad('property', f'scaling by {s["c"]} raised {s["err"]}')
@@ -712,6 +759,8 @@ def signature(c, io, rep, v):
     d = v.get('detail', '')
     if c.get('mut'):
         return f'C20:malformed:{c["mut"]}'
+    if v.get('kind') == 'property' and (('raised' in d and 'err' in io) or 'tree.predict' in d) and _abs_eps_cause(c, io):
+        return 'C20:absolute-eps'
     if 'raised' in d and 'err' in io:
         return 'C20:exc:' + io['err']
     for tag, word in (('pred', 'tree.predict'), ('scale', 'scaling history'), ('pure', 'original changed'), ('pure', 'changed after'), ('pure', 'shares state'), ('alias', 'aliasing history'),
